@@ -7,9 +7,13 @@ import (
 	"github.com/sentinel-official/hub/v12/types"
 )
 
+// AmountForBytes returns gigabytePrice * bytes / Gigabyte rounded up to a whole unit. It is computed on
+// integers (whole gigabyte units of the price first, then the remainder), so that it cannot overflow
+// an intermediate decimal when the result itself fits.
 func AmountForBytes(gigabytePrice, bytes sdkmath.Int) sdkmath.Int {
-	bytePrice := sdkmath.LegacyNewDecFromInt(gigabytePrice).QuoInt(types.Gigabyte)
-	return sdkmath.LegacyNewDecFromInt(bytes).Mul(bytePrice).Ceil().TruncateInt()
+	whole := gigabytePrice.Quo(types.Gigabyte).Mul(bytes)
+	part := gigabytePrice.Mod(types.Gigabyte).Mul(bytes)
+	return whole.Add(part.Add(types.Gigabyte).Sub(sdkmath.OneInt()).Quo(types.Gigabyte))
 }
 
 func GetProportionOfCoin(coin sdk.Coin, share sdkmath.LegacyDec) sdk.Coin {
